@@ -83,6 +83,9 @@ class Alg:
         self.pos: set = set()         # radical symbols (positive square roots)
         self.numv: dict = {}          # symbol -> numeric value at the witness
         self.trig: dict = {}          # angle expression -> (c, s)
+        self.lazy: dict = {}          # lazily created square-root symbol -> radicand
+        self.lazy_by_expr: dict = {}
+        self.canon_of: dict = {}      # lazy symbol -> canonical form
         for k, v in (witness or {}).items():
             self.numv[k] = sp.Rational(v) if not isinstance(v, sp.Basic) else v
 
@@ -93,6 +96,8 @@ class Alg:
         if isinstance(e, float):
             return sp.Float(e, self.PREC)
         e = sp.sympify(e)
+        if e.has(sp.nan):
+            return sp.nan
         if e.is_number:
             return e if e.is_Rational else sp.N(e, self.PREC)
         miss = [s for s in e.free_symbols if s not in self.numv]
@@ -106,7 +111,11 @@ class Alg:
         return v
 
     def fnum(self, e) -> float:
+        if isinstance(e, sp.Basic) and e.has(sp.nan):
+            return float("nan")
         v = self.num(e)
+        if v is sp.nan or v.has(sp.nan):
+            return float("nan")
         if v.is_real is False or not v.is_finite:
             raise Undecided(f"{self.tag}: witness value of {str(e)[:60]} is not a finite real number")
         return float(v)
@@ -132,57 +141,172 @@ class Alg:
         self.trig[a] = (c, s)
         return c, s
 
-    def _reduce_poly(self, p):
-        """reduce a polynomial numerator modulo the relations (each relation symbol ends with degree <= 1)"""
-        p = sp.expand(p)
+    def _gens(self, e) -> list:
+        syms = set(e.free_symbols)
+        todo = list(syms)
+        while todo:
+            x = todo.pop()
+            if x in self.rel:
+                for y in sp.sympify(self.rel[x]).free_symbols:
+                    if y not in syms:
+                        syms.add(y)
+                        todo.append(y)
+        return sorted(syms, key=str)
+
+    def _reduce_elem(self, Rg, el):
+        """reduce a ring element modulo the relations sym**2 == poly (each relation symbol ends with degree <= 1)"""
+        gens = list(Rg.symbols)
         for R in reversed(self.order):
-            if not p.has(R):
+            if R not in gens:
                 continue
-            try:
-                P = sp.Poly(p, R)
-            except sp.PolynomialError:
-                return None
-            if P.degree() < 2:
+            i = gens.index(R)
+            if all(mon[i] < 2 for mon in el.keys()):
                 continue
-            new = sp.Integer(0)
-            sq = self.rel[R]
-            for (k,), c in P.terms():
-                new += c * sq ** (k // 2) * R ** (k % 2)
-            num, den = sp.fraction(sp.together(new))
-            p = sp.expand(num)
-        return p
+            relp = Rg.from_expr(sp.sympify(self.rel[R]))
+            pw = {0: Rg.one}
+            new = Rg.zero
+            for mon, c in el.terms():
+                k = mon[i]
+                if k < 2:
+                    new += Rg.term_new(mon, c)
+                    continue
+                h, r_ = divmod(k, 2)
+                if h not in pw:
+                    pw[h] = relp ** h
+                m2 = mon[:i] + (r_,) + mon[i + 1:]
+                new += Rg.term_new(m2, c) * pw[h]
+            el = new
+        return el
+
+    def _numer_vanishes(self, e) -> bool:
+        """the numerator of e (over a common denominator, no gcd computations) reduces to zero modulo the relations"""
+        from sympy.polys.rings import ring
+        n, _d = sp.fraction(sp.together(e))
+        gens = self._gens(n)
+        if not gens:
+            return sp.expand(n) == 0
+        try:
+            Rg = ring(gens, sp.QQ)[0]
+            el = Rg.from_expr(n)
+        except Exception:
+            return False
+        return self._reduce_elem(Rg, el) == 0
 
     def ratform(self, e):
-        """(numerator, denominator) of e, both reduced modulo the relations"""
-        e = sp.together(sp.sympify(e))
-        n, d = sp.fraction(e)
-        n2, d2 = self._reduce_poly(n), self._reduce_poly(d)
-        if n2 is None or d2 is None:
+        """(numerator, denominator) of e as expressions, both reduced modulo the relations - or None if e is not rational in its symbols"""
+        from sympy.polys.fields import field
+        e = sp.sympify(e)
+        gens = self._gens(e)
+        if not gens:
+            n, d = sp.fraction(sp.together(e))
+            return sp.expand(n), sp.expand(d)
+        try:
+            K = field(gens, sp.QQ)[0]
+            fe = K.from_expr(e)
+        except Exception:
             return None
-        return n2, d2
+        Rg = K.ring
+        n2, d2 = self._reduce_elem(Rg, fe.numer), self._reduce_elem(Rg, fe.denom)
+        return n2.as_expr(), d2.as_expr()
 
     def is_zero(self, e, what: str = "") -> bool:
         """True: proven identically zero on the path; False: refuted at the witness; otherwise Undecided"""
         e = sp.sympify(e)
         if e == 0:
             return True
-        rf = None
-        if not e.atoms(sp.Function):
-            rf = self.ratform(e)
-            if rf is not None and rf[0] == 0:
-                return True
-            if rf is not None:
-                # a second pass: the reduced numerator may cancel only after the denominators introduced by the relations are cleared
-                n2 = self._reduce_poly(sp.fraction(sp.together(rf[0]))[0])
-                if n2 is not None and n2 == 0:
-                    return True
         v = self.num(e)
-        if v.is_number and v.is_finite and abs(v) > sp.Float(10) ** (-self.PREC + 20):
+        if not (v.is_number and v.is_finite):
             return False
+        if abs(v) > sp.Float(10) ** (-self.PREC + 20):
+            return False                      # an exact non-zero residual at the witness: a concrete failing input
+        e = self.resolve(e)
+        if e == 0:
+            return True
+        if not e.atoms(sp.Function):
+            if self._numer_vanishes(e):
+                return True
         raise Undecided(f"{self.tag}: cannot decide whether a term vanishes identically ({what}): {str(e)[:160]}")
 
-    # ---- canonical square roots -------------------------------------------------------------------------
+    # ---- square roots: created lazily, canonicalised only when an identity needs them ---------------------
     def sqrt(self, e):
+        e = sp.sympify(e)
+        if e.is_number:
+            return sp.sqrt(e)
+        L = self.lazy_by_expr.get(e)
+        if L is None:
+            v = self.num(e)
+            if not (v.is_real and v.is_finite):
+                raise Undecided(f"{self.tag}: square root of a term without a real value at the witness: {str(e)[:80]}")
+            if abs(v) < sp.Float(10) ** (-self.PREC + 20):
+                if self.is_zero(e, "radicand"):
+                    return sp.Integer(0)
+            if v < 0:
+                return sp.nan            # numpy semantics: sqrt / arccos outside the domain give nan at this input
+            L = sp.Symbol(f"lz{len(self.lazy)}", positive=True)
+            self.lazy[L] = e
+            self.lazy_by_expr[e] = L
+            self.numv[L] = sp.sqrt(sp.N(v, self.PREC))
+        return L
+
+    def square(self, e):
+        """e**2; for a (lazily created) square root this is its radicand, no canonical form needed"""
+        e = sp.sympify(e)
+        if e in self.lazy:
+            return self.lazy[e]
+        return e ** 2
+
+    def resolve(self, e):
+        """replace the lazily created square roots in e by their canonical form (radical tower)"""
+        e = sp.sympify(e)
+        for _ in range(50):
+            ls = [s_ for s_ in e.free_symbols if s_ in self.lazy]
+            if not ls:
+                return e
+            sub = {}
+            for L in ls:
+                if L not in self.canon_of:
+                    self.canon_of[L] = self._sqrt_canon(self.resolve(self.lazy[L]))
+                sub[L] = self.canon_of[L]
+            e = e.xreplace(sub)
+        raise Undecided(f"{self.tag}: radical tower too deep")
+
+    def _split(self, poly):
+        """poly == const * prod f**m with the f square-free; known radicands / radical symbols are split off as separate factors"""
+        const, facs = sp.sqf_list(poly)
+        out = []
+        for g, m in facs:
+            g = sp.sympify(g)
+            for R in list(self.order):
+                if R in self.pos and g.has(R):
+                    q_, r_ = sp.div(g, R, R)
+                    if r_ == 0:
+                        out.append((R, m))
+                        g = sp.expand(q_)
+            for canon, R in list(self.radkey.items()):
+                G = sp.sympify(canon)
+                if g.is_number or not G.free_symbols <= g.free_symbols:
+                    continue
+                k0 = self._key(g)
+                if k0 is not None and k0[0] == G:
+                    out.append((G, m))
+                    const *= k0[1] ** m
+                    g = sp.Integer(1)
+                    break
+                if len(G.free_symbols) < len(g.free_symbols) or sp.Poly(G).total_degree() < sp.Poly(g).total_degree():
+                    try:
+                        q_, r_ = sp.div(g, G, *sorted(g.free_symbols, key=str))
+                    except Exception:
+                        continue
+                    if r_ == 0:
+                        out.append((G, m))
+                        g = sp.expand(q_)
+            if g.is_number:
+                const *= g ** m
+            else:
+                out.append((g, m))
+        return const, out
+
+    def _sqrt_canon(self, e):
         e = sp.sympify(e)
         if e.is_number:
             return sp.sqrt(e)
@@ -196,27 +320,23 @@ class Alg:
             return sp.Integer(0)
         outside = sp.Integer(1)
         rest = sp.Integer(1)
-        cn, fn = sp.factor_list(n)
-        cd, fd = sp.factor_list(d)
+        cn, fn = self._split(n)
+        cd, fd = self._split(d)
         const = sp.Rational(cn) / sp.Rational(cd)
         for facs, sgn in ((fn, 1), (fd, -1)):
             for f, m in facs:
-                key = self._key(f)
                 if f in self.pos:                       # a radical symbol under the root
                     half, odd = divmod(m, 2)
                     outside *= f ** (sgn * half)
                     if odd:
-                        if sgn > 0:
-                            rest *= f
-                        else:
+                        if sgn < 0:
                             outside /= f
-                            rest *= f
+                        rest *= f
                     continue
+                key = self._key(f)
                 if key is not None and key[0] in self.radkey:      # the radicand of a known radical (up to a positive constant)
-                    Rk, ck = self.radkey[key[0]], key[1]
-                    # f == ck * radicand(Rk)
-                    outside *= Rk ** (sgn * m)
-                    const *= sp.Rational(ck) ** (sgn * m)
+                    outside *= self.radkey[key[0]] ** (sgn * m)
+                    const *= sp.Rational(key[1]) ** (sgn * m)
                     continue
                 half, odd = divmod(m, 2)
                 if half:
@@ -226,15 +346,12 @@ class Alg:
                         sg = 1 if self.fnum(f) > 0 else -1       # |f| on the path of this scenario
                         outside *= (sg * f) ** (sgn * half)
                 if odd:
-                    if sgn > 0:
-                        rest *= f
-                    else:
+                    if sgn < 0:
                         outside /= f
-                        rest *= f
+                    rest *= f
         rest = sp.expand(rest)
         if const < 0:
             const, rest = -const, -rest
-        # split the constant: const = a/b -> sqrt(a*b)/b
         a_, b_ = sp.fraction(sp.Rational(const))
         outside *= sp.sqrt(sp.Integer(a_ * b_)) / b_
         if rest == 1:
@@ -425,6 +542,12 @@ class Interp:
             self.block(fn.body, env)
         except _Ret as r:
             return r.value
+        except (Undecided, AnchorError, Raised, ShapeError, _Break, _Continue):
+            raise
+        except RecursionError:
+            raise Undecided(f"{self.tag}: recursion while interpreting {fn.name}")
+        except Exception as ex:           # an operation outside the modelled subset: never a verdict
+            raise Undecided(f"{self.tag}: interpreter cannot execute {fn.name}: {type(ex).__name__}: {str(ex)[:100]}")
         finally:
             self.depth -= 1
         return None
@@ -938,8 +1061,15 @@ class Interp:
             return self._abs(args[0])
         if nm == "range":
             return list(range(*[int(a) for a in args]))
-        if nm == "isinstance":
-            return True
+        if nm == "isinstance" and len(c.args) == 2:
+            v, t = args[0], u(c.args[1]).replace(" ", "")
+            if t in ("np.ndarray", "numpy.ndarray"):
+                return isinstance(v, np.ndarray)
+            if t in ("int", "(int,np.integer)", "np.integer"):
+                return isinstance(v, (int, np.integer)) and not isinstance(v, bool)
+            if t in ("list", "tuple", "(list,tuple)", "(tuple,list)"):
+                return isinstance(v, (list, tuple))
+            raise Undecided(f"{self.tag}: isinstance test against {t}")
         if nm in ("min", "max") and args:
             seq = list(args[0]) if len(args) == 1 else list(args)
             return self._select(seq, nm == "min")
@@ -1103,6 +1233,8 @@ class Interp:
         return fn(v)
 
     def norm(self, v, axis=None):
+        if not isinstance(v, (np.ndarray, list, tuple)):
+            return self._abs(v)
         v = _o(v)
         sq = v * v
         s = sq.sum(axis=axis) if axis is not None else sq.sum()
@@ -1222,9 +1354,36 @@ class Interp:
             if name == "logical_not" and n == 1:
                 r = np.logical_not(self._boolish(args[0], c))
                 return bool(r) if isinstance(r, np.bool_) else r
+            if name == "where" and n == 3:
+                cond = self._boolish(args[0], c)
+                a, b = _symnum(args[1]), _symnum(args[2])
+                if isinstance(cond, bool):
+                    return a if cond else b
+                ca, aa, ba = np.broadcast_arrays(cond, _o(np.asarray(a, dtype=object)) if not isinstance(a, np.ndarray) else _o(a),
+                                                 _o(np.asarray(b, dtype=object)) if not isinstance(b, np.ndarray) else _o(b))
+                out = np.empty(ca.shape, dtype=object)
+                for ix in np.ndindex(*ca.shape):
+                    out[ix] = aa[ix] if ca[ix] else ba[ix]
+                return out
+            if name == "clip" and n == 3:
+                lo, hi = _symnum(args[1]), _symnum(args[2])
+
+                def one(x):
+                    return self._select([self._select([x, lo], False), hi], True)
+                return self.elementwise(one, args[0])
             if name in ("where", "nonzero", "flatnonzero") and n == 1:
                 a = self._boolish(args[0], c)
                 return np.flatnonzero(a) if name == "flatnonzero" else np.nonzero(a)
+            if name == "diag" and n == 1:
+                a = args[0]
+                if isinstance(a, np.ndarray) and a.ndim == 1:
+                    out = np.empty((a.size, a.size), dtype=object)
+                    out[...] = sp.Integer(0)
+                    for i in range(a.size):
+                        out[i, i] = _symnum(a[i])
+                    return out
+                if isinstance(a, np.ndarray) and a.ndim == 2:
+                    return np.diag(a)
             if name == "setdiff1d" and n == 2:
                 return np.setdiff1d(np.asarray(args[0]), np.asarray(args[1]))
             if name in ("ma.less_equal", "less_equal", "ma.less", "less", "ma.greater_equal", "greater_equal", "ma.greater", "greater") and n == 2:
@@ -1363,7 +1522,7 @@ META = {
     "level_note": "Decides the algebraic identities (orthogonality, determinant, image of the normal, idempotence, block layout) for symbolic input on the "
                   "listed paths; nothing about floating point, tolerances or degenerate input.",
 }
-MIN_INSTANCES = {"R1": 5, "R2": 16, "R3": 8, "R4": 14, "R5": 40, "R6": 10, "R7": 10}
+MIN_INSTANCES = {"R1": 5, "R2": 20, "R3": 9, "R4": 15, "R5": 60, "R6": 12, "R7": 22}
 
 _CACHE: dict = {}
 
@@ -1374,6 +1533,7 @@ class Rec:
     def __init__(self):
         self.items: list = []
         self.samples: list = []
+        self.undecided: list = []
 
     def check(self, rule, ok, rel, qual, message, construct, facts=None):
         self.items.append((rule, bool(ok), rel, qual, message, construct, facts))
@@ -1418,8 +1578,11 @@ def _group(ctx: Ctx, name: str, roots: list, body: Callable[[Rec], None]) -> Non
         rec = Rec()
         try:
             body(rec)
+            # a concrete refutation is a verdict even if other identities of the group could not be decided; without one, undecided is undecided
+            if rec.undecided and all(it[1] for it in rec.items):
+                rec = rec.undecided[0]
         except (Undecided, AnchorError) as ex:
-            rec = ex
+            rec = ex if not (isinstance(rec, Rec) and any(not it[1] for it in rec.items)) else rec
         if len(_CACHE) > 400:
             _CACHE.clear()
         _CACHE[key] = rec
@@ -1502,20 +1665,26 @@ class Scen:
 def _identity(rec: Rec, rule: str, sc: Scen, rel: str, qual: str, label: str, clause: str, terms, facts=None) -> bool:
     if terms is None:
         return rec.check(rule, False, rel, qual, f"{clause}: the result has the wrong shape [{label}]", f"{qual}: {clause} [{label}]", facts)
-    ok, why = _all_zero(sc.alg, terms, clause)
+    try:
+        ok, why = _all_zero(sc.alg, terms, clause)
+    except Undecided as ex:
+        rec.undecided.append(Undecided(f"{qual} [{label}]: {ex}"))
+        return True
     return rec.check(rule, ok, rel, qual, f"{clause} [{label}]" + ("" if ok else f" FAILS - {why}; witness: {_witness_text(sc.alg, sorted(sc.alg.numv, key=str)[:12])}"),
                      f"{qual}: {clause} [{label}]", facts)
 
 
 def _run(rec: Rec, rule: str, rel: str, qual: str, label: str, thunk):
-    """run a scenario; a `raise` reached on a generic path is a finding, numpy shape rejections are Undecided"""
+    """run a scenario; a `raise` reached with the (partly artificial) scenario input and numpy shape rejections are Undecided, never findings"""
     try:
         return True, thunk()
     except Raised as ex:
-        rec.check(rule, False, rel, qual, f"the code raises on the path of scenario [{label}]: {ex}", f"{qual}: returns normally [{label}]")
-        return False, None
+        rec.undecided.append(Undecided(f"C32 {qual} [{label}]: the code raises on the scenario input ({ex})"))
     except ShapeError as ex:
-        raise Undecided(f"C32 {qual} [{label}]: numpy rejects the shapes: {ex}")
+        rec.undecided.append(Undecided(f"C32 {qual} [{label}]: numpy rejects the shapes: {ex}"))
+    except Undecided as ex:
+        rec.undecided.append(Undecided(f"C32 {qual} [{label}]: {ex}"))
+    return False, None
 
 
 # ======================================================================================================
@@ -1707,9 +1876,11 @@ def _points(k: int) -> np.ndarray:
 def _r4(repo, rec: Rec) -> None:
     q = "compute_normal"
     P = _points(3)
-    wsets = {"first point farthest from the centroid": [(5, 1, 2), (0, 1, 0), (1, 0, 1)],
-             "second point farthest": [(0, 1, 0), (5, 1, 2), (1, 0, 1)],
-             "third point farthest": [(1, 0, 1), (0, 1, 0), (-4, 3, 7)]}
+    Q = sp.Rational
+    a_, b_, c_ = (Q(5), Q(-2), Q(3)), (Q(1, 2), Q(3, 4), Q(-1, 3)), (Q(-2, 3), Q(1, 5), Q(4, 7))
+    wsets = {"first point farthest from the centroid": [a_, b_, c_],
+             "second point farthest": [b_, a_, c_],
+             "third point farthest": [b_, c_, (Q(-4), Q(3), Q(7, 2))]}
     seen_choices = set()
     for lab, pts in wsets.items():
         sc = Scen(repo, {P[i, j]: sp.Rational(pts[j][i]) for i in range(3) for j in range(3)})
@@ -1805,6 +1976,10 @@ def _find_projection(ob: Obj, dim: int, nv: int):
     """the (dim, dim, nv) array of projection blocks and the (dim, nv) unit normals stored on the object"""
     proj = [k for k, v in ob.attrs.items() if isinstance(v, np.ndarray) and v.shape == (dim, dim, nv)]
     nrm = [k for k, v in ob.attrs.items() if isinstance(v, np.ndarray) and v.shape == (dim, nv)]
+    if "_projection" in proj:
+        proj = ["_projection"]
+    if "normals" in nrm:
+        nrm = ["normals"]
     if len(proj) != 1:
         raise Undecided(f"C32 {CLS}: expected one attribute of shape (dim, dim, num_vecs), found {proj}")
     return ob.attrs[proj[0]], (ob.attrs[nrm[0]] if len(nrm) == 1 else None)
@@ -1907,13 +2082,23 @@ def _r7(repo, rec: Rec) -> None:
     prim = {0: 11, 1: 13, 2: 17}
     for gdim, given in ((2, True), (2, False), (1, True), (1, False)):
         g = Bag(dim=gdim, **{f: _symarr(f[0] + f.split("_")[-1][0], shapes[f]) for f in fields})
+        # a rotation-like matrix that is not symmetric and leaves 3 - gdim rows of the face centres constant, so that the active-row mask is a
+        # proper subset of the rows (block structure; the entries stay symbolic)
         Rm = _symarr("R", (3, 3))
+        zero_at = [(0, 2), (1, 2), (2, 0), (2, 1)] if gdim == 2 else [(0, 1), (0, 2), (1, 0), (2, 0)]
+        for ix in zero_at:
+            Rm[ix] = sp.Integer(0)
+        fcs = g.attrs["face_centers"]
+        for row in ([2] if gdim == 2 else [1, 2]):
+            fcs[row, 1] = fcs[row, 0]
         wit = {}
         for f in fields:
             for ix in np.ndindex(*shapes[f]):
-                wit[g.attrs[f][ix]] = sp.Rational(prim[ix[0]] + 3 * ix[1] + len(f), 7)
+                if isinstance(g.attrs[f][ix], sp.Symbol):
+                    wit[g.attrs[f][ix]] = sp.Rational(prim[ix[0]] + 3 * ix[1] + len(f), 7)
         for ix in np.ndindex(3, 3):
-            wit[Rm[ix]] = sp.Rational(1 + ((2 * ix[0] + 5 * ix[1]) % 7), 9) * (-1 if (ix[0] + ix[1]) % 2 else 1)
+            if isinstance(Rm[ix], sp.Symbol):
+                wit[Rm[ix]] = sp.Rational(1 + ((2 * ix[0] + 5 * ix[1]) % 7), 9) * (-1 if (ix[0] + ix[1]) % 2 else 1)
         called = {}
 
         def stub(it, args, kw, node, called=called, Rm=Rm):
@@ -1930,6 +2115,8 @@ def _r7(repo, rec: Rec) -> None:
         cc, fn_, fc, Rret, mask, nodes = out
         if not (isinstance(mask, np.ndarray) and mask.dtype == bool and mask.shape == (3,)):
             raise Undecided(f"C32 {q}: the fifth returned value is not a boolean mask of the three axes")
+        if int(mask.sum()) != gdim:
+            raise Undecided(f"C32 {q}: the scenario does not produce {gdim} active rows (mask {mask.tolist()})")
         if not given:
             want_callee = "project_plane_matrix" if gdim == 2 else "project_line_matrix"
             rec.check("R7", set(called) == {want_callee}, MG, q, f"a {gdim}-d grid without a given rotation obtains it from {want_callee} (called: {sorted(called)})",
@@ -1951,16 +2138,87 @@ def _r7(repo, rec: Rec) -> None:
             rec.check("R7", bool(good), MG, q, f"a grid of dimension {gdim} is returned unmapped with the identity rotation", f"{q}: unmapped [dimension {gdim}]")
 
 
+def run_groups(ctx: Ctx, groups: list) -> None:
+    """run every group; a group that cannot be decided does not hide a concrete refutation found by another group: the Undecided is re-raised at the
+    end unless a finding that is not a registered known finding was recorded (then the verdict is the finding)"""
+    from ..core.report import load_known, match_known
+    pending = []
+    for name, roots, body in groups:
+        try:
+            _group(ctx, name, roots, body)
+        except Undecided as ex:
+            pending.append(ex)
+    if pending:
+        known = load_known()
+        fresh = [f for f in ctx.findings if match_known(f, known) is None]
+        if not fresh:
+            raise pending[0]
+        for ex in pending:
+            ctx.note(f"undecided (a finding was reported elsewhere): {ex}")
+
+
 def run(ctx: Ctx) -> None:
     repo = ctx.repo
-    _group(ctx, "R1", [(MG, "rotation_matrix")], lambda rec: _r1(repo, rec))
-    _group(ctx, "R2", [(MG, "project_plane_matrix"), (MG, "project_line_matrix")], lambda rec: _r2(repo, rec))
-    _group(ctx, "R3", [(MG, "normal_matrix"), (MG, "tangent_matrix")], lambda rec: _r3(repo, rec))
-    _group(ctx, "R4", [(MG, "compute_normal"), (MG, "compute_tangent")], lambda rec: _r4(repo, rec))
     cls_roots = [(TNP, f"{CLS}.__init__")]
-    _group(ctx, "R5", cls_roots, lambda rec: _r5(repo, rec))
-    _group(ctx, "R6", cls_roots + [(TNP, f"{CLS}.project_tangential_normal"), (TNP, f"{CLS}.project_normal"), (TNP, f"{CLS}.project_tangential")], lambda rec: _r6(repo, rec))
-    _group(ctx, "R7", [(MG, "map_grid")], lambda rec: _r7(repo, rec))
+    run_groups(ctx, [
+        ("R1", [(MG, "rotation_matrix")], lambda rec: _r1(repo, rec)),
+        ("R2", [(MG, "project_plane_matrix"), (MG, "project_line_matrix")], lambda rec: _r2(repo, rec)),
+        ("R3", [(MG, "normal_matrix"), (MG, "tangent_matrix")], lambda rec: _r3(repo, rec)),
+        ("R4", [(MG, "compute_normal"), (MG, "compute_tangent")], lambda rec: _r4(repo, rec)),
+        ("R5", cls_roots, lambda rec: _r5(repo, rec)),
+        ("R6", cls_roots + [(TNP, f"{CLS}.project_tangential_normal"), (TNP, f"{CLS}.project_normal"), (TNP, f"{CLS}.project_tangential")], lambda rec: _r6(repo, rec)),
+        ("R7", [(MG, "map_grid")], lambda rec: _r7(repo, rec)),
+    ])
 
 
-MUTANTS: list = []
+def _m(name, file, old, new, rule, control=False, count=1):
+    return dict(name=name, file=file, old=old, new=new, rule=rule, control=control, count=count)
+
+
+_W = "        [[0.0, -vect[2], vect[1]], [vect[2], 0.0, -vect[0]], [-vect[1], vect[0], 0.0]]\n"
+_PLANE_CROSS = ("            normal[1] * reference[2] - normal[2] * reference[1],\n"
+                "            normal[2] * reference[0] - normal[0] * reference[2],\n"
+                "            normal[0] * reference[1] - normal[1] * reference[0],\n")
+_PLANE_CROSS_SWAPPED = ("            reference[1] * normal[2] - reference[2] * normal[1],\n"
+                        "            reference[2] * normal[0] - reference[0] * normal[2],\n"
+                        "            reference[0] * normal[1] - reference[1] * normal[0],\n")
+
+MUTANTS = [
+    # rotation_matrix
+    _m("rotation-left-handed", MG, _W, "        [[0.0, vect[2], -vect[1]], [-vect[2], 0.0, vect[0]], [vect[1], -vect[0], 0.0]]\n", "R1"),
+    _m("rotation-one-plus-cos", MG, "        + (1.0 - np.cos(a)) * np.linalg.matrix_power(W, 2)\n", "        + (1.0 + np.cos(a)) * np.linalg.matrix_power(W, 2)\n", "R1"),
+    _m("rotation-axis-not-normalised", MG, "    vect = vect / np.linalg.norm(vect)\n", "    vect = np.asarray(vect)\n", "R1"),
+    _m("rotation-sin-cos-swapped", MG, "        + np.sin(a) * W\n", "        + np.cos(a) * W\n", "R1"),
+    # project_plane_matrix / project_line_matrix
+    _m("plane-cross-product-order", MG, _PLANE_CROSS, _PLANE_CROSS_SWAPPED, "R2"),
+    _m("plane-angle-from-last-component", MG, "    angle = np.arccos(np.dot(normal, reference))\n", "    angle = np.arccos(normal[2])\n", "R2"),
+    _m("plane-normal-not-normalised", MG, "        normal = normal.flatten() / np.linalg.norm(normal)\n", "        normal = normal.flatten()\n", "R2"),
+    _m("plane-line-return-transpose", MG, "    return rotation_matrix(angle, vect)\n", "    return rotation_matrix(angle, vect).T\n", "R2", count=2),
+    _m("line-angle-negated", MG, "    angle = np.arccos(np.dot(tangent, reference))\n", "    angle = -np.arccos(np.dot(tangent, reference))\n", "R2"),
+    _m("line-tangent-not-normalised", MG, "        tangent = tangent.flatten() / np.linalg.norm(tangent)\n", "        tangent = tangent.flatten()\n", "R2"),
+    # normal_matrix / tangent_matrix
+    _m("normal-matrix-not-normalised", MG, "        normal = normal / np.linalg.norm(normal)\n", "        normal = np.asarray(normal)\n", "R3", control=True),
+    _m("tangent-matrix-plus", MG, "    return np.eye(3) - normal_matrix(pts, normal)\n", "    return np.eye(3) + normal_matrix(pts, normal)\n", "R3"),
+    # compute_normal / compute_tangent
+    _m("compute-normal-unnormalised", MG, "    return normal / np.linalg.norm(normal)\n", "    return normal\n", "R4"),
+    _m("compute-normal-raw-points", MG, "    v = pts - center\n", "    v = pts\n", "R4"),
+    _m("compute-normal-guard-removed", MG, "    if np.allclose(normal, np.zeros(3), atol=tol * nrm_scaling):\n", "    if False:\n", "R4"),
+    _m("compute-normal-cross-of-same-vector", MG, "            v1[2] * v[0] - v1[0] * v[2],\n", "            v1[2] * v[0] - v1[0] * v[1],\n", "R4"),
+    _m("compute-tangent-unnormalised", MG, "    return tangent / np.linalg.norm(tangent)\n", "    return tangent\n", "R4"),
+    # map_grid
+    _m("map-grid-transpose-on-one-field", MG, "        cell_centers = np.dot(R, cell_centers)[dim, :]\n", "        cell_centers = np.dot(R.T, cell_centers)[dim, :]\n", "R7", control=True),
+    _m("map-grid-mask-forgotten", MG, "        nodes = np.dot(R, nodes)[dim, :]\n", "        nodes = np.dot(R, nodes)\n", "R7"),
+    _m("map-grid-wrong-builder", MG, "                R = project_plane_matrix(g.nodes, tol=tol)\n", "                R = project_line_matrix(g.nodes)\n", "R7"),
+    _m("map-grid-normals-not-rotated", MG, "        face_normals = np.dot(R, face_normals)[dim, :]\n", "        face_normals = face_normals[dim, :]\n", "R7"),
+    # TangentialNormalProjection
+    _m("tnp-left-handed-second-tangent", TNP, "            tc2 = np.cross(normal, tc1, axis=0)\n", "            tc2 = np.cross(tc1, normal, axis=0)\n", "R5"),
+    _m("tnp-2d-tangent-sign", TNP, "                [normal[1, positive_n1], -normal[0, positive_n1]]\n", "                [normal[1, positive_n1], normal[0, positive_n1]]\n", "R5"),
+    _m("tnp-normal-first", TNP, "            basis = np.hstack([tc1, tc2, normal])\n", "            basis = np.hstack([normal, tc1, tc2])\n", "R5"),
+    _m("tnp-aligned-case-dropped", TNP, "                tc1[other_dim[0], aligned_with_axis] = 1\n", "                pass\n", "R5"),
+    _m("tnp-no-inverse", TNP, "            M_inv[:, :, i] = np.linalg.inv(M[:, :, i])\n", "            M_inv[:, :, i] = M[:, :, i]\n", "R5"),
+    _m("tnp-3d-tangent-component-swapped", TNP, "                tc1[other_dim[1], hit] = normal[other_dim[0], hit]\n", "                tc1[other_dim[1], hit] = normal[other_dim[1], hit]\n", "R5"),
+    _m("tnp-ravel-order", TNP, '                [self._projection[:, :, i].ravel("F") for i in range(num)]\n', '                [self._projection[:, :, i].ravel("C") for i in range(num)]\n', "R6"),
+    _m("tnp-normal-row-index", TNP, "        cols = np.arange(self.dim - 1, size_proj, self.dim)\n", "        cols = np.arange(0, size_proj, self.dim)\n", "R6", control=True),
+    _m("tnp-repeat-last-block", TNP, '            data = np.tile(self._projection[:, :, 0].ravel(order="F"), num)\n', '            data = np.tile(self._projection[:, :, -1].ravel(order="F"), num)\n', "R6"),
+    _m("tnp-tangential-rows-keep-normal", TNP, "            np.arange(size_proj), np.arange(self.dim - 1, size_proj, self.dim)\n", "            np.arange(size_proj), np.arange(0, size_proj, self.dim)\n", "R6"),
+]
